@@ -418,3 +418,54 @@ MUTANTS += [
         }''')],
      'expect': {'C07': None}},
 ]
+
+# ---- C02 (f): verify's verdict on bounded token sequences ----------------------------------------------------------------
+MUTANTS += [
+    {'name': 'c02_duplicate_names_accepted', 'edits': [(P, '''                    int r = _cmp_name(&state->current_name, &consumed);
+
+                    if (r >= 0) {''', '''                    int r = _cmp_name(&state->current_name, &consumed);
+
+                    if (r > 0) {''')],
+     'expect': {'C02': 'C02'}},
+    {'name': 'c02_object_end_after_name_accepted', 'edits': [(P, '''                if (!CHECKBITMASK(state->flags, BINSON_STATE_IN_OBJ_EXPECTING_FIELD)) {
+                    parser->error_flags = BINSON_ERROR_FORMAT;
+                    break;
+                }''', '''                if (!CHECKBITMASK(state->flags, BINSON_STATE_IN_OBJECT)) {
+                    parser->error_flags = BINSON_ERROR_FORMAT;
+                    break;
+                }''')],
+     'expect': {'C02': 'LANG'}},
+    {'name': 'c02_value_without_name_accepted', 'edits': [(P, '''                if (CHECKBITMASK(state->flags, BINSON_STATE_IN_OBJ_EXPECTING_VALUE)) {
+                    state->flags = BINSON_STATE_IN_OBJ_EXPECTING_FIELD;
+                }
+                else {
+                    parser->error_flags = BINSON_ERROR_FORMAT;
+                    return false;
+                }''', '''                if (CHECKBITMASK(state->flags, BINSON_STATE_IN_OBJ_EXPECTING_VALUE) ||
+                    next_state == BINSON_STATE_PARSED_BOOLEAN) {
+                    state->flags = BINSON_STATE_IN_OBJ_EXPECTING_FIELD;
+                }
+                else {
+                    parser->error_flags = BINSON_ERROR_FORMAT;
+                    return false;
+                }''')],
+     'expect': {'C02': 'LANG'}},
+    {'name': 'c02_root_end_without_size_check', 'edits': [(P, '''                        parser->current_state = &parser->state[0];
+                        if (parser->buffer_used != parser->buffer_size) {
+                            parser->error_flags = BINSON_ERROR_FORMAT;
+                        }''', '''                        parser->current_state = &parser->state[0];''')],
+     'expect': {'C02': 'LANG'}},   # 40 41 41 is accepted: the loop returns at the first root END
+    {'name': 'c02_name_order_forgotten_after_nested_object', 'edits': [(P, '''                    parser->buffer_used += 1;
+                    memset(parser->current_state, 0x00, sizeof(binson_state));
+                    if (parser->depth > 1) {
+                        parser->depth--;
+                        parser->current_state = &parser->state[parser->depth - 1];
+                    }''', '''                    parser->buffer_used += 1;
+                    memset(parser->current_state, 0x00, sizeof(binson_state));
+                    if (parser->depth > 1) {
+                        parser->depth--;
+                        parser->current_state = &parser->state[parser->depth - 1];
+                        parser->current_state->current_name.bptr = NULL;
+                    }''')],
+     'expect': {'C02': 'LANG'}},
+]
